@@ -489,5 +489,42 @@ def finditer (rx : Rx) (p : Path) (doc extra : J) : List Node :=
 /-- `JSONPath.findall` -/
 def findall (rx : Rx) (p : Path) (doc extra : J) : List J := (finditer rx p doc extra).map (·.val)
 
+/-! ## Compound queries (`CompoundJSONPath`) -/
+
+/-- `obj in _objs`: Python list membership (`==`). -/
+def inObjs (v : J) (objs : List J) : Bool := objs.any (fun o => pyEq v o)
+
+/-- `CompoundJSONPath.finditer`: `itertools.chain` for union; `_intersection(matches, objs)` for
+    intersection, where `objs` is bound when the helper is called (once per operand). -/
+def compoundFinditer (rx : Rx) (c : Compound) (doc extra : J) : List Node :=
+  c.rest.foldl (fun acc (isUnion, p) =>
+      let more := finditer rx p doc extra
+      if isUnion then acc ++ more
+      else
+        let objs := more.map (·.val)
+        acc.filter (fun m => inObjs m.val objs))
+    (finditer rx c.first doc extra)
+
+/-- `CompoundJSONPath.findall`: the list-based twin (`extend` / list comprehension). -/
+def compoundFindall (rx : Rx) (c : Compound) (doc extra : J) : List J :=
+  c.rest.foldl (fun objs (isUnion, p) =>
+      let more := findall rx p doc extra
+      if isUnion then objs ++ more
+      else objs.filter (fun o => inObjs o more))
+    (findall rx c.first doc extra)
+
+/-- The pre-repair `finditer`: every intersection filter was a generator expression whose free
+    variable `_objs` was looked up when the generator was consumed, i.e. after the loop had finished:
+    all filters saw the objects of the *last* intersection operand. Kept as a counter-model. -/
+def compoundFinditerLateBound (rx : Rx) (c : Compound) (doc extra : J) : List Node :=
+  let lastObjs : List J :=
+    match (c.rest.filter (fun (u, _) => !u)).getLast? with
+    | some (_, p) => findall rx p doc extra
+    | none => []
+  c.rest.foldl (fun acc (isUnion, p) =>
+      if isUnion then acc ++ finditer rx p doc extra
+      else acc.filter (fun m => inObjs m.val lastObjs))
+    (finditer rx c.first doc extra)
+
 end Query
 end JP
